@@ -108,8 +108,9 @@ PROPS = {
                         "unlock request ids are fresh (locking contract counter on the execution layer; shown necessary by an example: the module does not check ids)"],
     },
     "C03": {
-        "module": "GoatProofs.C03",
-        "theorems": ["Goat.C03.C03_accept_implies", "Goat.C03.C03_value_exact", "Goat.C03.C03_coinbase_only_at_zero",
+        "module": ["GoatProofs.C03", "GoatProofs.C03H"],
+        "theorems": ["Goat.C03H.deposited_nodup_invariant", "Goat.C03H.deposited_monotone", "Goat.C03H.deposited_prefix", "Goat.C03H.credited_rejected_forever", "Goat.C03H.credited_batch_rejected", "Goat.C03H.credited_at_most_once", "Goat.C03H.credited_at_most_once_general", "Goat.C03H.credited_recorded", "Goat.C03H.credited_exactly", "Goat.C03H.credited_only_if_verified", "Goat.C03H.credited_only_if_accepted", "Goat.C03H.newDeposits_trace", "Goat.C03H.verifyDeposit_credited_err",
+                     "Goat.C03.C03_accept_implies", "Goat.C03.C03_value_exact", "Goat.C03.C03_coinbase_only_at_zero",
                      "Goat.C03.hasDeposited_iff", "Goat.C03.newDeposits_go_spec", "Goat.C03.C03_deposit_once"],
         "streams": [{"name": "bitcoin", "quick": 2500, "thorough": 30000, "seeds": 16}, {"name": "merkle", "quick": 3000, "thorough": 60000, "seeds": 8}],
         "assumptions": ["double SHA-256 collision resistance enters only as the explicit hypothesis IdealHash of the coinbase corollary",
